@@ -7,22 +7,57 @@
 package stream
 
 import (
+	"context"
 	"fmt"
+	"os"
+	"path/filepath"
 	"sort"
 	"strings"
 	"sync/atomic"
 
 	"github.com/apache/skywalking-banyandb/api/common"
+	"github.com/apache/skywalking-banyandb/banyand/internal/storage"
 	"github.com/apache/skywalking-banyandb/banyand/protector"
 	"github.com/apache/skywalking-banyandb/pkg/fs"
 	"github.com/apache/skywalking-banyandb/pkg/logger"
 	pbv1 "github.com/apache/skywalking-banyandb/pkg/pb/v1"
 	"github.com/apache/skywalking-banyandb/pkg/run"
+	"github.com/apache/skywalking-banyandb/pkg/timestamp"
 )
+
+// vc05Segment exposes the two shard tables of the harness to getBlockScanner (the real query entry).
+type vc05Segment struct {
+	tables  []*tsTable
+	decRefs int32
+}
+
+func (s *vc05Segment) DecRef()                           { atomic.AddInt32(&s.decRefs, 1) }
+func (s *vc05Segment) GetTimeRange() timestamp.TimeRange { return timestamp.TimeRange{} }
+func (s *vc05Segment) IndexDB() storage.IndexDB          { return nil }
+func (s *vc05Segment) Location() string                  { return "" }
+func (s *vc05Segment) SeriesIndexStats() (int64, int64)  { return 0, 0 }
+func (s *vc05Segment) Tables() ([]*tsTable, []storage.Cache) {
+	return s.tables, make([]storage.Cache, len(s.tables))
+}
+
+func (s *vc05Segment) TablesWithShardIDs() ([]*tsTable, []common.ShardID, []storage.Cache) {
+	ids := make([]common.ShardID, len(s.tables))
+	for i := range ids {
+		ids[i] = common.ShardID(i)
+	}
+	return s.tables, ids, make([]storage.Cache, len(s.tables))
+}
+
+func (s *vc05Segment) CreateTSTableIfNotExist(common.ShardID) (*tsTable, error) { return nil, nil }
+
+func (s *vc05Segment) Lookup(context.Context, []*pbv1.Series) (pbv1.SeriesList, error) {
+	return nil, nil
+}
 
 // VC05Stream is one stream table under test.
 type VC05Stream struct {
 	tst     *tsTable
+	tstB    *tsTable // second shard of the same segment: mem parts only, written by WriteB
 	flushCh chan *flusherIntroduction
 	mergeCh chan *mergerIntroduction
 	held    map[int]*snapshot
@@ -34,14 +69,22 @@ type VC05Stream struct {
 // VC05StreamNew opens an empty table rooted at root.
 func VC05StreamNew(root string) *VC05Stream {
 	_ = logger.Init(logger.Logging{Env: "prod", Level: "error"})
-	tst, epoch, err := initTSTable(fs.NewLocalFileSystem(), root, common.Position{}, logger.GetLogger("verif-c05-stream"),
-		option{mergePolicy: newDefaultMergePolicyForTesting(), protector: protector.Nop{}}, nil, false)
-	if err != nil {
-		panic(err)
+	open := func(dir string) (*tsTable, uint64) {
+		if err := os.MkdirAll(dir, 0o755); err != nil {
+			panic(err)
+		}
+		t, epoch, err := initTSTable(fs.NewLocalFileSystem(), dir, common.Position{}, logger.GetLogger("verif-c05-stream"),
+			option{mergePolicy: newDefaultMergePolicyForTesting(), protector: protector.Nop{}}, nil, false)
+		if err != nil {
+			panic(err)
+		}
+		t.loopCloser = run.NewCloser(1)
+		t.introductions = make(chan *introduction)
+		return t, epoch
 	}
-	tst.loopCloser = run.NewCloser(1)
-	tst.introductions = make(chan *introduction)
-	return &VC05Stream{tst: tst, epoch: epoch + 1, flushCh: make(chan *flusherIntroduction), mergeCh: make(chan *mergerIntroduction),
+	tst, epoch := open(filepath.Join(root, "a"))
+	tstB, _ := open(filepath.Join(root, "b"))
+	return &VC05Stream{tst: tst, tstB: tstB, epoch: epoch + 1, flushCh: make(chan *flusherIntroduction), mergeCh: make(chan *mergerIntroduction),
 		held: map[int]*snapshot{}}
 }
 
@@ -79,8 +122,12 @@ func (v *VC05Stream) Closed() bool { return v.closed }
 // Write adds one batch (2 elements) into segment seg, as the liaison write queue does.
 func (v *VC05Stream) Write(seg int64) {
 	v.nBatch++
-	n := int64(v.nBatch)
-	es := &elements{
+	es := vc05Elements(int64(v.nBatch))
+	v.serve(func() { v.tst.mustAddElementsWithSegmentID(es, seg, nil) })
+}
+
+func vc05Elements(n int64) *elements {
+	return &elements{
 		seriesIDs:  []common.SeriesID{1, 2},
 		timestamps: []int64{n * 10, n*10 + 1},
 		elementIDs: []uint64{uint64(n) * 10, uint64(n)*10 + 1},
@@ -89,7 +136,64 @@ func (v *VC05Stream) Write(seg int64) {
 			{{tag: "tf", values: []*tagValue{{tag: "t", valueType: pbv1.ValueTypeStr, value: []byte("v")}}}},
 		},
 	}
-	v.serve(func() { v.tst.mustAddElementsWithSegmentID(es, seg, nil) })
+}
+
+// WriteB adds one batch to the second shard (its own introducer is played inline).
+func (v *VC05Stream) WriteB() {
+	v.nBatch++
+	es := vc05Elements(int64(v.nBatch))
+	done := make(chan any, 1)
+	go func() {
+		defer func() { done <- recover() }()
+		v.tstB.mustAddElements(es)
+	}()
+	for {
+		select {
+		case ind := <-v.tstB.introductions:
+			v.tstB.introducePart(ind, v.epoch)
+			v.epoch++
+		case r := <-done:
+			if r != nil {
+				panic(fmt.Sprintf("producer: %v", r))
+			}
+			return
+		}
+	}
+}
+
+// Query runs the real stream query entry getBlockScanner over both shards for timestamps [lo, hi]. With early=false
+// every block is scanned before close; with early=true the scanner is closed right away. Returns "blocks/elements".
+func (v *VC05Stream) Query(lo, hi int64, early bool) string {
+	seg := &vc05Segment{tables: []*tsTable{v.tst, v.tstB}}
+	qo := queryOptions{minTimestamp: lo, maxTimestamp: hi, sortedSids: []common.SeriesID{1, 2}}
+	bsn, err := getBlockScanner(context.Background(), seg, qo, logger.GetLogger("verif-c05-stream"), protector.Nop{}, nil)
+	if err != nil {
+		return "ERR"
+	}
+	if bsn == nil {
+		return "0/0"
+	}
+	blocks, elems := 0, uint64(0)
+	if !early {
+		for len(bsn.parts) > 0 {
+			ch := make(chan *blockScanResultBatch, 256)
+			bsn.scan(context.Background(), ch)
+			close(ch)
+			for b := range ch {
+				if b.err != nil {
+					bsn.close()
+					return "ERR"
+				}
+				for i := range b.bss {
+					blocks++
+					elems += b.bss[i].bm.count
+				}
+				releaseBlockScanResultBatch(b)
+			}
+		}
+	}
+	bsn.close()
+	return fmt.Sprintf("%d/%d", blocks, elems)
 }
 
 // FlusherStep is one round of flusherLoop for a write-queue table: pin the current snapshot, mergeMemParts (one merge
@@ -141,6 +245,7 @@ func (v *VC05Stream) Release(k int) bool {
 func (v *VC05Stream) Close() {
 	v.closed = true
 	_ = v.tst.Close()
+	_ = v.tstB.Close()
 }
 
 func vc05List(s *snapshot) string {
@@ -155,19 +260,36 @@ func vc05List(s *snapshot) string {
 	return "[" + strings.Join(b, ",") + "]"
 }
 
+func vc05Refs(s *snapshot, pfx string, out *[]string) {
+	if s == nil {
+		return
+	}
+	for _, pw := range s.parts {
+		k := "f"
+		if pw.mp != nil {
+			k = "m"
+		}
+		*out = append(*out, fmt.Sprintf("%s%d%s:%d", pfx, pw.ID(), k, atomic.LoadInt32(&pw.ref)))
+	}
+}
+
 // Dump renders: C=<ref>:[<id><kind>*<elements>,…] N=<elements held by the current snapshot's parts> H=k:[…];…
+// B=<ref>:[…] (second shard) NB=<its elements> W=<part>:<ref>,… (parts of the two current snapshots)
 func (v *VC05Stream) Dump() string {
 	var sb strings.Builder
-	cur := v.tst.snapshot
-	if cur == nil {
-		sb.WriteString("C=- N=0")
-	} else {
+	one := func(t *tsTable, c, n string) {
+		cur := t.snapshot
+		if cur == nil {
+			fmt.Fprintf(&sb, "%s=- %s=0", c, n)
+			return
+		}
 		var total uint64
 		for _, pw := range cur.parts {
 			total += pw.p.partMetadata.TotalCount
 		}
-		fmt.Fprintf(&sb, "C=%d:%s N=%d", atomic.LoadInt32(&cur.ref), vc05List(cur), total)
+		fmt.Fprintf(&sb, "%s=%d:%s %s=%d", c, atomic.LoadInt32(&cur.ref), vc05List(cur), n, total)
 	}
+	one(v.tst, "C", "N")
 	keys := make([]int, 0, len(v.held))
 	for k := range v.held {
 		keys = append(keys, k)
@@ -177,7 +299,12 @@ func (v *VC05Stream) Dump() string {
 	for _, k := range keys {
 		hl = append(hl, fmt.Sprintf("%d:%s", k, vc05List(v.held[k])))
 	}
-	sb.WriteString(" H=" + strings.Join(hl, ";"))
+	sb.WriteString(" H=" + strings.Join(hl, ";") + " ")
+	one(v.tstB, "B", "NB")
+	var wl []string
+	vc05Refs(v.tst.snapshot, "a", &wl)
+	vc05Refs(v.tstB.snapshot, "b", &wl)
+	sb.WriteString(" W=" + strings.Join(wl, ","))
 	return sb.String()
 }
 
